@@ -598,27 +598,282 @@ def check_single_cluster_prefix(ck, R2, ini, d_cluster, d_module):
 def check_cluster_name_validated(ck, R2, shape):
     """The cluster name is spliced in front of `module:function#version` with the cluster delimiter; the parser can
     only get it back if it contains none of the characters that delimit the later parts.  The configuration
-    refuses such names where clusters are created."""
-    fa = FA(ck, "configuration.FunctionCluster.__init__")
+    refuses such names where clusters are created: for each such character c and each value `self.name` may finally
+    hold, the constructor cannot complete normally when that value contains c.  Decided by walking the CFG under the
+    assumption "the final name contains c": a test whose outcome the assumption settles ('c' in name, any(...) over a
+    literal, a character class, a set intersection, `name is None` ...) is followed only on that side; a test about
+    another value (the parameter when the configured name is the final one, the field before it is overridden) settles
+    nothing.  Reaching the normal exit with that value in the field means such a name is accepted."""
+    import copy
+    import re as _re
+    from .c11 import _unrolled
+    from .fresh import static_value
+    fa = _unrolled(FA(ck, "configuration.FunctionCluster.__init__"))
     d_cluster, d_module, d_version = shape if shape is not None else ("::", ":", "#")
-    need = {d_module[0], d_version}
-    ok = False
-    # a raise guarded by a test whose VALUE is computed from the name and from all the later delimiters (the
-    # test itself, or locals / comprehensions it is computed from: `bad = [c for c in '#:' if c in name]; if bad:`)
-    for r in fa.stmts(ast.Raise):
-        g = fa.enclosing(r, ast.If)
-        while g is not None and not ok:
-            if fa.nodes(g.test):
-                fl = [n for (n, a_) in flow_nodes(fa, g.test, fa.nodes(g.test)[0])]
-                chars = set("".join(n.value for n in fl if isinstance(n, ast.Constant) and isinstance(n.value, str)))
-                about_name = any((isinstance(n, ast.Name) and n.id == "name") or (isinstance(n, ast.Attribute) and n.attr == "name") for n in fl)
-                if need <= chars and about_name:
-                    ok = True
-            g = fa.enclosing(g, ast.If)
+    need = sorted({d_module[0], d_version})
+    FIELD = "self.name"
+    cfg = fa.cfg
+    finals = fa.df.reaching(cfg.exit, FIELD)
+    ck.need(finals, "FunctionCluster.__init__: self.name is never assigned")
+
+    def text_of(d):
+        return fa.xnorm(d.value, d.node) if d.kind == "assign" and d.value is not None else "?%d" % d.node
+
+    def samples(c):
+        return [c, "a" + c, c + "a", "a" + c + "b", "ab" + c + c + "b_1"]
+
+    def agree(vals):
+        vals = [bool(v) for v in vals]
+        return True if all(vals) else False if not any(vals) else None
+
+    def evaluate(test, at, cur, c, F):
+        def is_name(x):
+            t = A.norm(x)
+            return (t == FIELD and cur == F) or t == F
+
+        def elements(it):
+            """constants a literal iterable yields / 'NAME' when it iterates the name itself / None"""
+            if is_name(it):
+                return "NAME"
+            v = static_value(fa, it, at)
+            if isinstance(v, ast.Constant) and isinstance(v.value, str):
+                return [ast.Constant(value=ch) for ch in v.value]
+            if isinstance(v, (ast.Tuple, ast.List, ast.Set)) and all(isinstance(x, ast.Constant) for x in v.elts):
+                return list(v.elts)
+            return None
+
+        def subst(e, name, const):
+            class T(ast.NodeTransformer):
+                def visit_Name(self, n):
+                    return ast.copy_location(ast.Constant(value=const.value), n) if n.id == name else n
+            return T().visit(copy.deepcopy(e))
+
+        def comp_rows(comp):
+            """[[truth of each `if` ..., element expr]] per member the comprehension walks; None when it cannot be told"""
+            if len(comp.generators) != 1 or not isinstance(comp.generators[0].target, ast.Name):
+                return None, None
+            g = comp.generators[0]
+            els = elements(g.iter)
+            if els is None:
+                return None, None
+            partial = els == "NAME"
+            rows = []
+            for k in ([ast.Constant(value=c)] if partial else els):
+                conds = [ev(subst(i, g.target.id, k)) for i in g.ifs]
+                rows.append((conds, subst(comp.elt, g.target.id, k) if not isinstance(comp, ast.DictComp) else None))
+            return rows, partial
+
+        def quant(comp, want_any):
+            rows, partial = comp_rows(comp)
+            if rows is None:
+                return None
+            vals = []
+            for (conds, elt) in rows:
+                if any(x is False for x in conds):
+                    continue  # filtered out
+                v = ev(elt) if elt is not None else None
+                vals.append(v if all(x is True for x in conds) else (None if v is not (not want_any) else None))
+            if want_any:
+                if any(v is True for v in vals):
+                    return True
+                return None if partial or any(v is None for v in vals) else False
+            if any(v is False for v in vals):
+                return False
+            return None if partial or any(v is None for v in vals) else True
+
+        def nonempty(comp):
+            rows, partial = comp_rows(comp)
+            if rows is None:
+                return None
+            if any(all(x is True for x in conds) for (conds, _e) in rows):
+                return True
+            return None if partial or any(not any(x is False for x in conds) for (conds, _e) in rows) else False
+
+        def chars_of(lit):
+            els = elements(lit)
+            return None if els is None or els == "NAME" else {k.value for k in els}
+
+        def name_chars(x):
+            """set(name) / frozenset(name)"""
+            return isinstance(x, ast.Call) and isinstance(x.func, ast.Name) and x.func.id in ("set", "frozenset") and len(x.args) == 1 and is_name(x.args[0])
+
+        def pattern_of(x):
+            v = static_value(fa, x, at)
+            if isinstance(v, ast.Call) and A.call_attr(v) == "compile" and v.args:
+                v = static_value(fa, v.args[0], at)
+            return v.value if isinstance(v, ast.Constant) and isinstance(v.value, str) else None
+
+        def number(e):
+            """(lowest, highest) the integer can be under the assumption, None when unknown"""
+            if isinstance(e, ast.Constant) and isinstance(e.value, int) and not isinstance(e.value, bool):
+                return (e.value, e.value)
+            if isinstance(e, ast.UnaryOp) and isinstance(e.op, ast.USub) and isinstance(e.operand, ast.Constant) and isinstance(e.operand.value, int):
+                return (-e.operand.value, -e.operand.value)
+            if isinstance(e, ast.Call) and isinstance(e.func, ast.Attribute) and is_name(e.func.value) and len(e.args) == 1 and A.const_str(e.args[0]) == c:
+                if e.func.attr in ("find", "index", "rfind", "rindex"):
+                    return (0, None)
+                if e.func.attr == "count":
+                    return (1, None)
+            if isinstance(e, ast.Call) and isinstance(e.func, ast.Name) and e.func.id == "len" and len(e.args) == 1:
+                x = e.args[0]
+                if is_name(x):
+                    return (1, None)
+                if isinstance(x, (ast.ListComp, ast.SetComp, ast.GeneratorExp)):
+                    ne = nonempty(x)
+                    return (1, None) if ne is True else (0, 0) if ne is False else None
+            return None
+
+        def ev(e):
+            if isinstance(e, ast.Constant):
+                return bool(e.value)
+            if isinstance(e, ast.UnaryOp) and isinstance(e.op, ast.Not):
+                v = ev(e.operand)
+                return None if v is None else not v
+            if isinstance(e, ast.BoolOp):
+                vs = [ev(v) for v in e.values]
+                if isinstance(e.op, ast.And):
+                    return False if any(v is False for v in vs) else True if all(v is True for v in vs) else None
+                return True if any(v is True for v in vs) else False if all(v is False for v in vs) else None
+            if isinstance(e, ast.IfExp):
+                t = ev(e.test)
+                return ev(e.body) if t is True else ev(e.orelse) if t is False else (ev(e.body) if ev(e.body) == ev(e.orelse) else None)
+            if isinstance(e, ast.Compare) and len(e.ops) == 1:
+                l, op, r = e.left, e.ops[0], e.comparators[0]
+                neg = isinstance(op, (ast.NotIn, ast.IsNot, ast.NotEq))
+                res = None
+                if isinstance(op, (ast.In, ast.NotIn)):
+                    if is_name(r) and A.const_str(l) is not None:
+                        res = True if A.const_str(l) == c else None
+                    elif A.const_str(l) is not None and not is_name(r):
+                        # a constant looked up in a literal string / collection
+                        rv = static_value(fa, r, at)
+                        if isinstance(rv, ast.Constant) and isinstance(rv.value, str):
+                            res = A.const_str(l) in rv.value
+                        elif isinstance(rv, (ast.Tuple, ast.List, ast.Set)) and all(isinstance(x, ast.Constant) for x in rv.elts):
+                            res = A.const_str(l) in {x.value for x in rv.elts}
+                elif isinstance(op, (ast.Is, ast.IsNot, ast.Eq, ast.NotEq)) and ((is_name(l) and A.is_none(r)) or (is_name(r) and A.is_none(l))):
+                    res = False
+                elif isinstance(op, (ast.Eq, ast.NotEq)) and ((is_name(l) and A.const_str(r) is not None) or (is_name(r) and A.const_str(l) is not None)):
+                    s_ = A.const_str(r) if is_name(l) else A.const_str(l)
+                    res = False if c not in s_ else None
+                if res is None and not isinstance(op, (ast.In, ast.NotIn, ast.Is, ast.IsNot)):
+                    a, b = number(l), number(r)
+                    if a is not None and b is not None:
+                        (alo, ahi), (blo, bhi) = a, b
+                        def lt(x_hi, y_lo):  # surely x < y
+                            return x_hi is not None and y_lo is not None and x_hi < y_lo
+                        if isinstance(op, ast.Lt):
+                            return True if lt(ahi, blo) else False if (bhi is not None and alo >= bhi) else None
+                        if isinstance(op, ast.GtE):
+                            return False if lt(ahi, blo) else True if (bhi is not None and alo >= bhi) else None
+                        if isinstance(op, ast.Gt):
+                            return True if lt(bhi, alo) else False if (ahi is not None and blo >= ahi) else None
+                        if isinstance(op, ast.LtE):
+                            return False if lt(bhi, alo) else True if (ahi is not None and blo >= ahi) else None
+                        if isinstance(op, (ast.Eq, ast.NotEq)):
+                            apart = lt(ahi, blo) or lt(bhi, alo)
+                            same = alo == ahi == blo == bhi
+                            res = False if apart else True if same else None
+                if res is None:
+                    return None
+                return (not res) if neg else res
+            if isinstance(e, ast.BinOp) and isinstance(e.op, ast.BitAnd):
+                for (x, y) in ((e.left, e.right), (e.right, e.left)):
+                    if name_chars(x):
+                        cs = chars_of(y.args[0] if isinstance(y, ast.Call) and isinstance(y.func, ast.Name) and y.func.id in ("set", "frozenset") and len(y.args) == 1 else y)
+                        if cs is not None:
+                            return True if c in cs else None
+                return None
+            if isinstance(e, (ast.ListComp, ast.SetComp, ast.GeneratorExp, ast.DictComp)):
+                return nonempty(e) if not isinstance(e, ast.GeneratorExp) else True
+            if isinstance(e, ast.Call):
+                nm = A.call_attr(e)
+                if isinstance(e.func, ast.Name) and nm in ("any", "all") and len(e.args) == 1 and isinstance(e.args[0], (ast.GeneratorExp, ast.ListComp, ast.SetComp)):
+                    return quant(e.args[0], nm == "any")
+                if isinstance(e.func, ast.Name) and nm == "bool" and len(e.args) == 1:
+                    return ev(e.args[0])
+                if isinstance(e.func, ast.Name) and nm == "isinstance" and len(e.args) == 2 and is_name(e.args[0]) and A.norm(e.args[1]) == "str":
+                    return True
+                if isinstance(e.func, ast.Name) and nm == "len" and len(e.args) == 1:
+                    n_ = number(e)
+                    return None if n_ is None else (True if n_[0] >= 1 else False if n_[1] == 0 else None)
+                if isinstance(e.func, ast.Attribute) and is_name(e.func.value):
+                    if nm in ("find", "index", "rfind", "rindex"):
+                        return None  # truthiness of a position says nothing
+                    if nm == "count" and len(e.args) == 1 and A.const_str(e.args[0]) == c:
+                        return True
+                    if not e.args and not e.keywords and nm in ("isalnum", "isalpha", "isidentifier", "isdigit", "isdecimal", "isnumeric", "isascii", "isprintable", "isspace", "islower", "isupper"):
+                        return agree([getattr(s_, nm)() for s_ in samples(c)])
+                    return None
+                if isinstance(e.func, ast.Attribute) and name_chars(e.func.value) and len(e.args) == 1:
+                    cs = chars_of(e.args[0])
+                    if cs is not None and nm == "isdisjoint":
+                        return False if c in cs else None
+                    if cs is not None and nm == "intersection":
+                        return True if c in cs else None
+                    return None
+                if nm in ("search", "match", "fullmatch", "findall") and isinstance(e.func, ast.Attribute):
+                    pat = subj = None
+                    if A.norm(e.func.value) in ("re", "_re", "regex") and len(e.args) >= 2:
+                        pat, subj = pattern_of(e.args[0]), e.args[1]
+                    elif len(e.args) == 1:
+                        pat, subj = pattern_of(e.func.value), e.args[0]
+                    if pat is not None and subj is not None and is_name(subj) and len(e.args) <= 2 and not e.keywords:
+                        try:
+                            rx = _re.compile(pat)
+                        except _re.error:
+                            return None
+                        return agree([getattr(rx, nm)(s_) for s_ in samples(c)])
+                return None
+            if is_name(e):
+                return True
+            return None
+
+        try:
+            return ev(fa.expand(test, at))
+        except (AnalysisError, RecursionError):
+            return None
+
+    def accepted(c, F):
+        """a cfg node of the normal exit reached with the value F (containing c) in the field, or None"""
+        seen = set()
+        todo = [(cfg.entry, None)]
+        while todo:
+            n, cur = todo.pop()
+            if (n, cur) in seen:
+                continue
+            seen.add((n, cur))
+            if n == cfg.exit:
+                if cur == F:
+                    return True
+                continue
+            nd = cfg.node(n)
+            nxt = cur
+            for d in fa.df.gen.get(n, []):
+                if d.name == FIELD:
+                    nxt = text_of(d)
+            tv = evaluate(nd.ast, n, cur, c, F) if nd.kind == "test" and isinstance(nd.ast, ast.expr) else None
+            for (dst, lab) in cfg.succ[n]:
+                if lab == "exc":
+                    continue
+                if tv is not None and lab in ("T", "F") and (lab == "T") != tv:
+                    continue
+                todo.append((dst, nxt))
+        return False
+
+    bad = []
+    for d in finals:
+        F = text_of(d)
+        for c in need:
+            if accepted(c, F):
+                bad.append((c, F, d))
+    ok = not bad
+    srcs = sorted({"%r in a name taken from `%s`" % (c, F) for (c, F, _d) in bad})
     ck.ob(R2, fa.key(None, "cluster-name-validated"), ok,
-          "a cluster name containing %s is refused" % sorted(need) if ok else
-          "cluster names are not checked against the delimiters %s of qualified names: a cluster called 'team#1' or 'a:' is accepted, results are "
-          "stored under it, and every later read of those entries fails to parse the name (or parses it into other parts)" % sorted(need), fa.where())
+          "a cluster name containing %s is refused" % need if ok else
+          "cluster names are not checked against the delimiters %s of qualified names (the constructor completes with %s): a cluster called 'team#1' or 'a:' is accepted, results are "
+          "stored under it, and every later read of those entries fails to parse the name (or parses it into other parts)" % (need, "; ".join(srcs)),
+          fa.where(bad[0][2].stmt) if bad and getattr(bad[0][2], "stmt", None) is not None else fa.where())
 
 
 def _handler_types(fa, h):
@@ -705,6 +960,25 @@ def check_unresolvable_is_absent(ck, R3):
     if fnf:
         catching = {"FunctionNotFoundError", "Exception", "BaseException"} | {b.name for b in ck.repo.mro(fnf[0])[1:]} | set(fnf[0].base_exprs)
 
+    def passes_on(fa, h):
+        """Does some reachable `raise` in the handler (at any depth: under a condition, in a loop, in a `with`) leave it?  A raise
+        inside an inner try of the handler that catches everything stays inside."""
+        for st in h.body:
+            for r in A.walk_local(st):
+                if not isinstance(r, ast.Raise) or not fa.nodes(r):
+                    continue
+                n, kept = r, False
+                while n is not None and n is not h:
+                    p_ = fa.pm.get(n)
+                    if isinstance(p_, ast.Try) and any(n is b for b in p_.body) and \
+                            any(t is None or t in ("Exception", "BaseException") for h2 in p_.handlers for t in _handler_types(fa, h2)):
+                        kept = True
+                        break
+                    n = p_
+                if not kept:
+                    return True
+        return False
+
     def absorbed(fa, call):
         n = call
         while n is not None:
@@ -712,8 +986,8 @@ def check_unresolvable_is_absent(ck, R3):
             if isinstance(p_, ast.Try) and any(fa.inside(call, b) for b in p_.body):
                 for h in p_.handlers:
                     if any(t is None or t in catching for t in _handler_types(fa, h)):
-                        # (a handler that passes the exception on does not absorb it)
-                        return not any(isinstance(st, ast.Raise) for st in h.body)
+                        # (a handler that passes the exception on - on any of its paths - does not absorb it)
+                        return not passes_on(fa, h)
             n = p_
         return False
 
@@ -728,6 +1002,13 @@ def check_unresolvable_is_absent(ck, R3):
             elif isinstance(c.func, ast.Attribute) and A.norm(c.func.value) in ("self", "cls", cls.node.name) and nm in cls.methods \
                     and nm not in stack and len(stack) < 5:
                 walk(FA(ck, cls.methods[nm]), prot, stack + (nm,))
+            elif isinstance(c.func, ast.Name) and nm not in stack and len(stack) < 5:
+                # a closure of this function (or of an enclosing one) the loop body was moved into
+                f_ = fa.fi
+                while f_ is not None and nm not in (getattr(f_, "nested", None) or {}):
+                    f_ = f_.parent
+                if f_ is not None:
+                    walk(FA(ck, f_.nested[nm]), prot, stack + (nm,))
 
     walk(gm, False, ("get_mementos",))
     ck.need(reads, "%s: no call chain from get_mementos to %s found" % (gm.qual, " / ".join(reader_names)))
@@ -829,7 +1110,9 @@ def check_listing_inverts_escape(ck, R):
     from urllib.parse import unquote as _uq
     ls = FA(ck, FSDS + ".list_keys_nonversioned")
     ek = FA(ck, FSDS + "._escape_key")
-    pairs = _escape_pairs(ek)
+    from .c11 import _unrolled
+    # (a loop over a literal table of (character, code) rows is the chain of replacements it stands for)
+    pairs = _escape_pairs(_unrolled(ek))
     if pairs is None:
         raise AnalysisError("%s: the key escape is neither a chain of replace(<char>, <code>) nor <code>.join(key.split(<char>))" % ek.qual)
     oke = any(a == ":" for a, b in pairs) and all(len(a) == 1 and b != a and _uq(b) == a for a, b in pairs)
@@ -1226,19 +1509,27 @@ def check(ck):
                 return arms[0] if arms[0] == arms[1] else MAYBE
             if isinstance(v, ast.BoolOp) and isinstance(v.op, ast.Or):
                 return NOTNONE if nullability(v.values[-1]) == NOTNONE else MAYBE
-            xv = A.norm(v)
-            if shape is not None and xv.startswith("FunctionReference.parse_qualified_name(") and xv.endswith(("['module']", "['function']")):
+            # a mandatory group of the parsed name, read off the parse result by subscript or .get
+            base = key = None
+            if isinstance(v, ast.Subscript) and A.const_str(v.slice):
+                base, key = v.value, A.const_str(v.slice)
+            elif isinstance(v, ast.Call) and isinstance(v.func, ast.Attribute) and v.func.attr in ("get", "__getitem__", "group") and v.args and A.const_str(v.args[0]):
+                base, key = v.func.value, A.const_str(v.args[0])
+            if shape is not None and key in ("module", "function") and isinstance(base, ast.Call) and A.call_attr(base) == "parse_qualified_name":
                 return NOTNONE
             return MAYBE
 
-        from .c11 import _bound_args
+        from .c11 import _bound_args, _unrolled
         ue = ck.repo.func("external.UnboundExternalMementoFunction.__init__")
         ue_params = [a.arg for a in ue.node.args.args if a.arg != "self"]
-        bound = _bound_args(fq, call, ue_params)
+        # (names bound by unpacking a literal table of parts are read as the single assignments they stand for)
+        fqu = _unrolled(fq)
+        call_u = fqu.calls("UnboundExternalMementoFunction")[0] if fqu is not fq else call
+        bound = _bound_args(fqu, call_u, ue_params)
         if bound is None:
             raise AnalysisError("from_qualified_name builds the external stub with */** arguments: bindings cannot be told")
         for p_, (v_, a_) in bound.items():
-            binding[p_] = nullability(fq.expand(v_, a_))
+            binding[p_] = nullability(fqu.expand(v_, a_))
         env = {}
         defaults = ue.node.args.defaults
         params = [a.arg for a in ue.node.args.args]
@@ -1354,7 +1645,29 @@ def check(ck):
     ck.run(check_unresolvable_is_absent, ck, R3)
     ck.run(check_decoded_on_every_read, ck, R3)
     fw = FA(ck, "reference.FunctionReferenceWithArguments.__init__")
-    rz = [r for r in fw.stmts(ast.Raise) if isinstance(r.exc, ast.Call)]
-    okz = bool(rz) and all(A.call_attr(r.exc) == "FunctionNotFoundError" for r in rz)
+    # the refusals reached BECAUSE the reference has no function object (path conditions say `<reference>.memento_fn` is absent) are
+    # FunctionNotFoundError - what get_mementos / the decoder turn into "absent"; whatever else the constructor (or a helper written
+    # out in it) refuses - a reserved parameter name, an argument of the wrong type - is not this clause's business
+    refp = next((p_ for p_ in fw.fi.params if p_ not in ("self", "cls")), "fn_reference")
+    absent = {("%s.memento_fn" % refp, False), ("%s.memento_fn is None" % refp, True), ("None is %s.memento_fn" % refp, True),
+              ("self.fn_reference.memento_fn", False), ("self.fn_reference.memento_fn is None", True)}
+    fnf_names = {"FunctionNotFoundError"}
+    for modname in ("exception", "types"):
+        for c_ in list(ck.repo.module(modname).all_classes()):
+            if any(b.name == "FunctionNotFoundError" for b in ck.repo.mro(c_)[1:]):
+                fnf_names.add(c_.name)
+    rz = []
+    for r in fw.stmts(ast.Raise):
+        if not fw.nodes(r):
+            continue
+        conds = fw.conditions(r)
+        if conds is None:
+            raise AnalysisError("FunctionReferenceWithArguments.__init__: too many paths to a raise")
+        if any(c_ & absent for c_ in conds):
+            rz.append(r)
+    bad = [r for r in rz if not (isinstance(r.exc, ast.Call) and A.call_attr(r.exc) in fnf_names)]
+    okz = bool(rz) and not bad
     ck.ob(R3, fw.key(None, "signals-not-found"), okz, "an unmappable reference is signalled as FunctionNotFoundError" if okz else
-          "FunctionReferenceWithArguments signals an unmappable reference with another exception type", fw.where())
+          "FunctionReferenceWithArguments signals an unmappable reference with another exception type" if bad else
+          "FunctionReferenceWithArguments no longer refuses a reference that cannot be mapped to a function with FunctionNotFoundError",
+          fw.where(bad[0]) if bad else fw.where())
